@@ -374,7 +374,7 @@ func runHold(in input) childOut {
 	} else {
 		eng = timing.NewSerialEngine()
 	}
-	c := &Comp{name: "Comp", Big: make([]int, 400000)}
+	c := &Comp{name: "Comp", Big: make([]int, 250000)}
 	d := &driver{c: c, eng: eng, prog: in.Prog, spin: in.Spin, chain: true}
 	c.tick = modeling.NewTickScheduler("Comp", eng, 1*timing.GHz)
 	c.port = messaging.NewPort(nil, 4, 4, "Comp.Port")
@@ -545,7 +545,7 @@ func init() {
 			"127.0.0.1) while Engine.Run executes ~900-1350 (parallel) / 9000-13500 (serial) events; the scenario runs in a race-instrumented SUBPROCESS " +
 			"(GORACE halt_on_error=0 exitcode=0 log_path=...), the race log is parsed into the set of endpoints whose handler frames " +
 			"appear in a report, and the final component results are compared with an unmonitored run in the same subprocess. " +
-			"Directed: every endpoint alone on both engines, the full safe mix, pause/continue storms, and the held-inspection history (user pause, engine observed idle by its goroutine stack, /api/field inspection of a 400000-element slice over a raw connection whose client stops reading, /api/continue sent meanwhile; observed: continue waits for engineControlMu / events handled while the inspection handler is still running). The lock-scope fact the model relies on is extracted from monitoring2/monitor.go by go/ast on every run. Non-trivial: >= 20 requests " +
+			"Directed: every endpoint alone on both engines, the full safe mix, pause/continue storms, and the held-inspection history (user pause, engine observed idle by its goroutine stack, /api/field inspection of a 250000-element slice over a raw connection whose client stops reading, /api/continue sent meanwhile; observed: continue waits for engineControlMu / events handled while the inspection handler is still running). The lock-scope fact the model relies on is extracted from monitoring2/monitor.go by go/ast on every run. Non-trivial: >= 20 requests " +
 			"were served while the engine was running. Distinct = distinct input hash.",
 		Gen: gen, Run: run,
 	})
